@@ -451,6 +451,14 @@ type pipeGen struct {
 	n    int
 	id   int
 	ecs  bool
+	cyc  int
+}
+
+// cycle walks a list of dimensions round-robin so that every one of them is
+// exercised equally often whatever the seed.
+func (p *pipeGen) cycle(dims []string) []string {
+	p.cyc++
+	return []string{dims[p.cyc%len(dims)]}
 }
 
 func (p *pipeGen) op(format string, a ...any) {
@@ -500,13 +508,11 @@ func (p *pipeGen) collisionCase() {
 	if scoped {
 		b.scope = genPrefix(r, r.Chance(1, 3))
 	}
-	dims := []string{"byte", "byte", "type", "class", "cd", "child", "parent"}
+	dims := []string{"byte", "type", "class", "cd", "child", "parent", "scope-none"}
 	if scoped {
-		dims = []string{"scope-none", "scope-bits", "scope-addr", "scope-family", "byte", "cd", "type"}
-	} else if r.Chance(1, 4) {
-		dims = []string{"scope-none"}
+		dims = []string{"scope-none", "scope-bits", "scope-addr", "scope-family", "byte", "cd", "type", "class"}
 	}
-	a, dim := mutate(r, b, dims)
+	a, dim := mutate(r, b, p.cycle(dims))
 	_ = dim
 	ida := p.nextID()
 	// A under B's key
@@ -733,6 +739,106 @@ func (p *pipeGen) compositeCase() {
 	}
 }
 
+// failureCollision: the failure of question A filed under the hash of B (one
+// dimension apart), then B looked up through both failure routes and the pipeline.
+func (p *pipeGen) failureCollisionCase() {
+	r := p.r
+	p.start()
+	b := genGid(r)
+	for len(b.ls) == 0 {
+		b.ls = genLabels(r)
+	}
+	if p.ecs && r.Chance(1, 3) {
+		b.scope = genPrefix(r, r.Chance(1, 4))
+	}
+	dims := []string{"byte", "type", "class", "cd", "child", "parent", "scope-none", "scope-bits", "scope-addr"}
+	a, _ := mutate(r, b, p.cycle(dims))
+	p.op("pipe fset fq=%s q %s %d", b.tok(), a.tok(), p.nextID())
+	look := func(g gid) {
+		p.op("pipe fget msg %s", g.tok())
+		sh := g
+		sh.scope = netip.Prefix{}
+		p.op("pipe fget wire %s", sh.tok())
+		q := fmt.Sprintf("%s,%d,%d,%s", nameTok(g.ls), g.qtype, g.class, vlib.B(g.cd))
+		client := netip.Prefix{}
+		if g.scope.IsValid() {
+			client = g.scope
+		}
+		p.op("pipe get msg %s %s", q, fmtScope(client))
+		p.op("pipe get wire %s -", q)
+		p.op("pipe get store %s -", q)
+	}
+	look(b)
+	c := b
+	c.ls = flipCase(r, b.ls)
+	look(c)
+	look(a)
+	// zone states: filed under the zone hash of another name / another class
+	zn := b.ls
+	zo, _ := mutate(r, gid{ls: zn, class: b.class}, p.cycle([]string{"byte", "class", "child", "parent"}))
+	p.op("pipe fset fz=%s,%d z %s,0,%d %d", nameTok(zn), b.class, nameTok(zo.ls), zo.class, p.nextID())
+	child := gid{ls: append([][]byte{genLabel(r)}, zn...), qtype: b.qtype, class: b.class, cd: r.Bool()}
+	if len(wireOf(child.ls)) <= 255 {
+		look(child)
+	}
+	look(gid{ls: zn, qtype: b.qtype, class: b.class, cd: b.cd})
+	if r.Chance(1, 3) {
+		p.purge(b)
+	}
+}
+
+// cutCollision: the cut of name A reachable under the index hash of B.
+func (p *pipeGen) cutCollisionCase() {
+	r := p.r
+	p.start()
+	b := gid{ls: genLabels(r), class: vlib.Pick(r, []int{1, 1, 1, 3})}
+	for len(b.ls) == 0 {
+		b.ls = genLabels(r)
+	}
+	a, _ := mutate(r, b, p.cycle([]string{"byte", "class", "child", "parent"}))
+	nm := func(g gid) string { return fmt.Sprintf("%s,0,%d", nameTok(g.ls), g.class) }
+	if len(a.ls) == 0 {
+		a.ls = [][]byte{{'q'}}
+	}
+	p.op("pipe cset %s %d c=%s", nm(a), p.nextID(), nm(b))
+	for _, g := range []gid{b, a, {ls: flipCase(r, b.ls), class: b.class}, {ls: append([][]byte{genLabel(r)}, b.ls...), class: b.class}, {ls: append([][]byte{genLabel(r)}, a.ls...), class: a.class}} {
+		if len(wireOf(g.ls)) > 255 {
+			continue
+		}
+		p.op("pipe cget wire %s", nm(g))
+		p.op("pipe cget msg %s", nm(g))
+		q := fmt.Sprintf("%s,%d,%d,%s", nameTok(g.ls), vlib.Pick(r, qtypes), g.class, vlib.B(r.Chance(1, 5)))
+		p.op("pipe get wire %s -", q)
+		p.op("pipe get msg %s %s", q, fmtScope(clientFor(r, netip.Prefix{})))
+		p.op("pipe get store %s -", q)
+	}
+}
+
+// unicodeCollision: an entry whose name is a Unicode look-alike of the question
+// (KELVIN SIGN vs k, long s vs S, É vs é, two invalid UTF-8 octets) under the
+// question's key: nothing but an ASCII-only comparison keeps them apart.
+func (p *pipeGen) unicodeCollisionCase() {
+	p.start()
+	pairs := [][2]string{{"\xe2\x84\xaa.example.", "k.example."}, {"\xc5\xbf.example.", "S.example."},
+		{"\xc3\x89.example.", "\xc3\xa9.example."}, {"\xff.example.", "\xfe.example."}, {"\xe2\x84\xaa.example.", "K.example."}}
+	pr := vlib.Pick(p.r, pairs)
+	qt := vlib.Pick(p.r, qtypes)
+	cd := vlib.B(p.r.Bool())
+	sc := "-"
+	if p.r.Chance(1, 3) {
+		sc = fmtScope(genPrefix(p.r, false))
+	}
+	p.op("pipe set q=%s,%d,1,%s,%s %s,%d,1,%s,%s %d -", presTok(pr[1]), qt, cd, sc, presTok(pr[0]), qt, cd, sc, p.nextID())
+	client := "-"
+	if sc != "-" {
+		client = sc
+	}
+	p.op("pipe get msg %s,%d,1,%s %s", presTok(pr[1]), qt, cd, client)
+	p.op("pipe get store %s,%d,1,%s -", presTok(pr[1]), qt, cd)
+	p.op("pipe lbkv q=%s,%d,1,%s,%s %s,%d,1,%s,%s", presTok(pr[1]), qt, cd, sc, presTok(pr[1]), qt, cd, sc)
+	p.op("pipe get msg %s,%d,1,%s %s", presTok(pr[0]), qt, cd, client)
+}
+
 // refresh: ReplaceIfCurrent keeps the partition and audience of the entry it replaces.
 func (p *pipeGen) refreshCase() {
 	r := p.r
@@ -818,7 +924,7 @@ func gen(r *vlib.R, n int, tier string, emit func(string)) {
 	p := &pipeGen{r: r, emit: emit}
 	for n > 0 {
 		p.n = 0
-		switch k := r.Intn(20); {
+		switch k := r.Intn(26); {
 		case k < 3:
 			n -= genKeyOps(r, emit, &sweep, tier)
 		case k < 5:
@@ -829,11 +935,17 @@ func gen(r *vlib.R, n int, tier string, emit func(string)) {
 			p.neighboursCase()
 		case k < 14:
 			p.chaseCase()
-		case k < 17:
+		case k < 16:
 			p.compositeCase()
-		case k < 18:
-			p.refreshCase()
 		case k < 19:
+			p.failureCollisionCase()
+		case k < 21:
+			p.cutCollisionCase()
+		case k < 22:
+			p.unicodeCollisionCase()
+		case k < 23:
+			p.refreshCase()
+		case k < 24:
 			p.purgeCase()
 		default:
 			if r.Chance(1, 3) {
